@@ -5,6 +5,7 @@ package checks
 import (
 	"encoding/json"
 	"fmt"
+	"math/big"
 	"os"
 	"runtime"
 	"sort"
@@ -13,6 +14,7 @@ import (
 	"time"
 
 	"verif/harness/ev"
+	"worldcoin/gnark-mbu/prover"
 	"worldcoin/gnark-mbu/server"
 	"worldcoin/gnark-mbu/verifrt/vhttp"
 	"worldcoin/gnark-mbu/verifrt/vsched"
@@ -21,7 +23,7 @@ import (
 const proverAddr, metricsAddr = "localhost:3001", "localhost:9998"
 
 type c14Scenario struct {
-	Clients []string `json:"clients"` // each: GET | POST-bad | SCRAPE
+	Clients []string `json:"clients"` // each: GET | POST-bad | SCRAPE | POST-valid
 	Cycles  int      `json:"cycles"`
 	Fine    bool     `json:"statement_level_points"`
 	Choices []int    `json:"schedule,omitempty"`
@@ -29,7 +31,7 @@ type c14Scenario struct {
 
 func init() {
 	Registry["C14"] = func() {
-		ev.Main("C14", "model_checking", 200*time.Second, 40*time.Minute, c14Body, func(c *ev.Ctx, raw json.RawMessage) {
+		ev.Main("C14", "model_checking", 240*time.Second, 40*time.Minute, c14Body, func(c *ev.Ctx, raw json.RawMessage) {
 			var sc c14Scenario
 			if err := json.Unmarshal(raw, &sc); err != nil {
 				c.HarnessError("%v", err)
@@ -79,13 +81,15 @@ func c14Run(sc *c14Scenario) func() (func(*vsched.Sched), func(), func(*vsched.S
 						results[i] = vhttp.Do(fmt.Sprintf("c%d", i), proverAddr, "POST", "/prove", []byte(`{"inputHash":"zz"}`))
 					case "SCRAPE":
 						results[i] = vhttp.Do(fmt.Sprintf("c%d", i), metricsAddr, "GET", "/metrics", nil)
+					case "POST-valid":
+						results[i] = vhttp.Do(fmt.Sprintf("c%d", i), proverAddr, "POST", "/prove", c14ValidBody)
 					}
 					vsched.Observe("client%d:%s:%d", i, results[i].Outcome, results[i].Status)
 				})
 			}
 			for cyc := 0; cyc < sc.Cycles; cyc++ {
 				cfg := server.Config{ProverAddress: proverAddr, MetricsAddress: metricsAddr, Mode: server.DeletionMode}
-				inst := server.Run(&cfg, nil)
+				inst := server.Run(&cfg, c14System(sc))
 				inst.RequestStop()
 				inst.AwaitStop()
 				if b := net.BoundAddrs(); len(b) > 0 {
@@ -107,7 +111,13 @@ func c14Run(sc *c14Scenario) func() (func(*vsched.Sched), func(), func(*vsched.S
 				case "aborted":
 					return &vsched.Failure{Kind: "invariant", Msg: fmt.Sprintf("request of client %d (%s) had been accepted but its connection was dropped before the response completed", i, sc.Clients[i])}
 				case "complete":
-					want := map[string]int{"GET": 405, "POST-bad": 400, "SCRAPE": 200}[sc.Clients[i]]
+					want := map[string]int{"GET": 405, "POST-bad": 400, "SCRAPE": 200, "POST-valid": 200}[sc.Clients[i]]
+					if sc.Clients[i] == "POST-valid" && r.Status == 200 {
+						pr, err := decodeProofIndependently(r.Body)
+						if err != nil || safeVerify(c14PS, "deletion", c14ValidHash, pr) != nil {
+							return &vsched.Failure{Kind: "invariant", Msg: fmt.Sprintf("client %d: the response completed around the stop is not a proof that verifies for the request's input hash", i)}
+						}
+					}
 					if r.Status != want || (want != 405 && len(r.Body) == 0) {
 						return &vsched.Failure{Kind: "invariant", Msg: fmt.Sprintf("client %d (%s) got status %d with %d body bytes, expected %d with a body", i, sc.Clients[i], r.Status, len(r.Body), want)}
 					}
@@ -119,13 +129,40 @@ func c14Run(sc *c14Scenario) func() (func(*vsched.Sched), func(), func(*vsched.S
 	}
 }
 
+// a real proving system for the scenarios in which requests reach the proving stage (deletion (1,1), an
+// all-padding batch: the cheapest real proof, ~0.35 s as one atomic step of the handler thread)
+var (
+	c14PS        *prover.ProvingSystem
+	c14ValidBody []byte
+	c14ValidHash *big.Int
+)
+
+func c14System(sc *c14Scenario) *prover.ProvingSystem {
+	for _, k := range sc.Clients {
+		if k == "POST-valid" {
+			return c14PS
+		}
+	}
+	return nil
+}
+
 func c14Body(c *ev.Ctx) {
 	quick := c.Quick()
+	{
+		ps, err := getSystem("deletion", 1, 1, 0)
+		if err != nil {
+			c.HarnessError("%v", err)
+		}
+		vb := validDelBatches(1, 1)
+		c14PS, c14ValidBody, c14ValidHash = ps, []byte(mustJSON(delDoc(&vb[0]))), bigs(vb[0].Hash)
+	}
 	if err := schedSelfTest(); err != nil {
 		c.HarnessError("scheduler self-test: %v", err)
 	}
 	c.Set("scheduler_self_test", "passed (lost update needs exactly 1 preemption; lock-order deadlock found at bound 1; both select alternatives explored; pruned == unpruned outcomes)")
-	scenarios := []c14Scenario{{Clients: nil, Cycles: 1}, {Clients: []string{"GET"}, Cycles: 1}, {Clients: []string{"POST-bad"}, Cycles: 1}, {Clients: nil, Cycles: 2}}
+	scenarios := []c14Scenario{{Clients: nil, Cycles: 1}, {Clients: []string{"GET"}, Cycles: 1}, {Clients: []string{"POST-bad"}, Cycles: 1}, {Clients: nil, Cycles: 2},
+		// two requests that reach the proving stage (real Groth16 proofs): the stop may land while both are in flight
+		{Clients: []string{"POST-valid", "POST-valid"}, Cycles: 1}}
 	if !quick {
 		scenarios = append(scenarios, c14Scenario{Clients: []string{"GET", "POST-bad"}, Cycles: 1}, c14Scenario{Clients: []string{"POST-bad", "SCRAPE"}, Cycles: 1}, c14Scenario{Clients: []string{"GET"}, Cycles: 2})
 	}
@@ -145,9 +182,18 @@ func c14Body(c *ev.Ctx) {
 	for i := range all {
 		all[i] = i
 	}
-	plans := []plan{{0, false, false, []int{0}}, {0, true, true, all}, {1, true, true, []int{0, 1}}, {1, false, true, all}, {2, false, true, []int{0, 2}}, {-1, false, true, []int{0}}}
+	// scenario 4 (requests with real proofs) costs ~0.7 s per complete execution: it gets the plans over
+	// shared-object operations only
+	cheap := []int{0, 1, 2, 3}
+	rest := []int{}
+	for i := 5; i < len(scenarios); i++ {
+		cheap = append(cheap, i)
+		rest = append(rest, i)
+	}
+	_ = all
+	plans := []plan{{0, false, false, []int{0}}, {0, true, true, cheap}, {1, true, true, []int{0, 1}}, {1, false, true, cheap}, {2, false, true, []int{0, 2}}, {-1, false, true, []int{0}}, {1, false, true, []int{4}}}
 	if !quick {
-		plans = []plan{{0, false, false, []int{0}}, {0, true, true, all}, {1, true, true, all}, {2, false, true, all}, {-1, false, true, []int{0, 1, 2, 3}}, {2, true, true, []int{0, 1}}, {-1, false, true, []int{4, 5, 6}}}
+		plans = []plan{{0, false, false, []int{0}}, {0, true, true, cheap}, {1, false, true, []int{4}}, {1, true, true, cheap}, {2, false, true, cheap}, {-1, false, true, []int{0, 1, 2, 3}}, {2, true, true, []int{0, 1}}, {2, false, true, []int{4}}, {-1, false, true, rest}}
 	}
 	runsLeft := 0
 	for _, pl := range plans {
